@@ -23,7 +23,7 @@ TU_KEY = "type-units-change-verdict"
 @st.composite
 def strategy_(draw, tier):
     big = tier == "thorough"
-    m = draw(S.library(lang="any", max_types=10 if big else 7, max_funcs=6, symfeatures=True, tu_private=20))
+    m = draw(S.library(lang="any", max_types=10 if big else 7, max_funcs=6, symfeatures=True, tu_private=20, tdanon=20))
     cfg = draw(S.build_config())
     # type units are a known weak spot (see known_findings.json): kept to ~15% of the cases so that the search goes on
     pool = DBG if draw(st.integers(0, 99)) < 15 else [x for x in DBG if "-fdebug-types-section" not in x]
